@@ -254,6 +254,9 @@ fn run_scn(c: &Scn, seed: u64, rep: &mut Report) {
     let probe = Probe::new(&net);
     let mut sched = Sched::new(net.clone(), rng.next());
     let sp = sched.spawner.clone();
+    // the application uses the request stream whole or split into halves (the limits travel with the halves)
+    let app_split = rng.bool();
+    rep.count(if app_split { "app_stream[split]" } else { "app_stream[whole]" });
     // messages the h3 application sends (send direction) or the raw peer sends (receive direction)
     let section = rq::encode_section(&ref_fields, &rq::EncOpts { huffman: rng.bool(), ..Default::default() });
     let small_trailers = rq::encode_section(&[(b"t".to_vec(), b"1".to_vec())], &rq::EncOpts::default());
@@ -268,7 +271,7 @@ fn run_scn(c: &Scn, seed: u64, rep: &mut Report) {
         }
         let sopts = ServerOpts {
             cfg: SrvCfg { max_field_section_size: Some(c.limit), grease: Some(false), ..Default::default() },
-            default_plan: RespPlan { resp, hold, ..Default::default() },
+            default_plan: RespPlan { resp, hold, split: app_split, ..Default::default() },
             ..Default::default()
         };
         sched.spawn("s:conn", apps::server_main::<Bytes>(net.clone(), sopts, probe.clone(), sp));
@@ -282,7 +285,7 @@ fn run_scn(c: &Scn, seed: u64, rep: &mut Report) {
         }
         let copts = ClientOpts {
             cfg: CliCfg { max_field_section_size: Some(c.limit), grease: Some(false), ..Default::default() },
-            reqs: vec![ReqPlan { req, hold, ..Default::default() }],
+            reqs: vec![ReqPlan { req, hold, split: app_split, ..Default::default() }],
             wait_gate: true,
             ..Default::default()
         };
